@@ -22,6 +22,7 @@ import (
 	"runtime"
 	"sort"
 	"strings"
+	"testing/synctest"
 	"time"
 
 	"github.com/dgraph-io/badger/v4/vshim/sched"
@@ -673,5 +674,92 @@ func init() {
 			st.keys = []string{"a", "b"}
 			return c03Check(x)
 		},
+	})
+}
+
+// c24trunc (E-enum, inside a bubble): DB.Load of a backup cut at EVERY byte.  Load may fail, but the
+// database must stay usable: a later Update and View return (a Load that claimed timestamps and then
+// failed must release them), and whatever was loaded reads back consistently (each key absent or with
+// its backed-up value).
+func init() {
+	registerEnum("c24trunc", func(e *enumCtx) {
+		var backup []byte
+		want := map[string]string{}
+		func() {
+			dir := freshDir(e.j)
+			defer removeAll(dir)
+			src := mustOpen(c24Opts(dir, 1))
+			defer src.Close()
+			for i := 0; i < 4; i++ {
+				k, v := fmt.Sprintf("key%d", i), fmt.Sprintf("value-%d", i)
+				if err := src.Update(func(txn *Txn) error { return txn.Set([]byte(k), []byte(v)) }); err != nil {
+					panic(err)
+				}
+				want[k] = v
+			}
+			var buf bytes.Buffer
+			if _, err := src.Backup(&buf, 0); err != nil {
+				panic(err)
+			}
+			backup = buf.Bytes()
+		}()
+		for cut := 0; cut <= len(backup); cut++ {
+			cut := cut
+			e.do(fmt.Sprintf("cut%d/%d", cut, len(backup)), func() (c, d string) {
+				inBubble(e.t, func() {
+					dir := freshDir(e.j)
+					defer removeAll(dir)
+					db := mustOpen(c24Opts(dir, 1))
+					closed := false
+					defer func() {
+						if c != "" {
+							bubbleLeakOK = true
+						}
+						if !closed && c == "" {
+							_ = db.Close()
+						}
+					}()
+					lerr := db.Load(bytes.NewReader(backup[:cut]), 4)
+					if cut == len(backup) && lerr != nil {
+						c, d = "backup-load-error", lerr.Error()
+						return
+					}
+					updated, viewed := false, false
+					var uerr error
+					got := map[string]string{}
+					go func() {
+						uerr = db.Update(func(txn *Txn) error { return txn.Set([]byte("after"), []byte("x")) })
+						updated = true
+						_ = db.View(func(txn *Txn) error {
+							for k := range want {
+								got[k] = getStr(txn, k)
+							}
+							return nil
+						})
+						viewed = true
+					}()
+					synctest.Wait()
+					if !updated || !viewed {
+						c, d = "deadlock/after-failed-load", fmt.Sprintf("Load of a backup cut at byte %d of %d returned %v; a later Update/View never returns (update done %v, view done %v): every goroutine of the database is blocked", cut, len(backup), lerr, updated, viewed)
+						return
+					}
+					if uerr != nil {
+						c, d = "unexpected-error", fmt.Sprintf("Update after a Load that returned %v: %v", lerr, uerr)
+						return
+					}
+					for k, v := range got {
+						if v != "<nil>" && v != want[k] {
+							c, d = "backup-partial-value", fmt.Sprintf("cut %d: key %s reads %q, the backup holds %q", cut, k, v, want[k])
+							return
+						}
+						if cut == len(backup) && v != want[k] {
+							c, d = "backup-full-state", fmt.Sprintf("key %s reads %q after a complete Load", k, v)
+							return
+						}
+					}
+				})
+				return
+			})
+		}
 	})
 }
